@@ -294,4 +294,4 @@ def build(p):
                     E.emit("ThreadNamed", f=form, k=i, s=t, a=name_id(nm), b=ab, c=1 if ok else 0)
         E.emit("End")
 
-    return main, {"horizon": 10 ** 7, "max_steps": 120000}
+    return main, {"horizon": 10 ** 7, "max_steps": 1000000}
